@@ -112,3 +112,129 @@ Example C18_docs_example :
   merge_docs _ toy (get_multidoc_mode None) (Some [[3]; []]) [[1]; [2]] = Ok ([[1; 2; 3]], 0) /\
   merge_docs _ toy (get_multidoc_mode (Some "matrix_merge"%string)) None [[1]] = Ok ([[1]], 3).
 Proof. repeat split; reflexivity. Qed.
+
+(* ======================================================================================== *)
+(* At the command line: how main() of yaml-merge builds the streams the drivers above see, and
+   which exit state wins.  Model of main(): Model/Cli.v (C16's glue model, tied to the real
+   main() by ./check C16); notions: Spec/C18CliSpec.v; proofs: Proofs/MultiDocCli.v.
+   [merge2] is any pairwise merge over document identifiers (as in C16). *)
+From YP Require Import PyStr Cli CliSpec CliMerge CliLibSpec CliMergeModes C18CliSpec MultiDocCli.
+Open Scope string_scope.
+
+(* the loop over the YAML_FILEs, sources that do not load included: it is [run_streams] - the first
+   source that yields documents supplies the left-hand documents, every later source goes through
+   MultiDoc.merge_docs as the stream it loads to (None = not loadable: state 3); the loop is left
+   at the first non-zero state *)
+Theorem C18_cli_loop_is_streams :
+  forall merge2 estr mode srcs mergers count consumed nh,
+    Forall (src_clean estr) srcs ->
+    loop_like (merge_loop merge2 estr mode srcs mergers count consumed nh)
+              (run_streams merge2 mode mergers (map (src_stream estr) srcs))
+              (consumed || existsb (fun s => is_dash (s_name s)) srcs) nh.
+Proof. exact merge_loop_streams. Qed.
+Print Assumptions C18_cli_loop_is_streams.
+
+(* one later source, loadable or not, through the glue's merge_docs = the model of C18 on its stream *)
+Theorem C18_cli_merge_docs_is_library :
+  forall merge2 estr mode lhs s,
+    src_clean estr s ->
+    same_drive (Cli.merge_docs merge2 estr mode lhs s)
+               (MultiDoc.merge_docs nat (lib_merge2 merge2) (Ok (lib_mode mode)) (src_stream estr s) lhs).
+Proof. exact merge_docs_stream. Qed.
+Print Assumptions C18_cli_merge_docs_is_library.
+
+(* exit_state precedence: the FIRST non-zero state in command-line order is the result - the streams
+   after it are not looked at (so an unloadable file after a failed merge step does not turn 31 into 3,
+   nor the other way round) *)
+Theorem C18_cli_first_error_wins :
+  forall merge2 mode xs ys acc out n,
+    run_streams merge2 mode acc xs = Ok (out, S n) -> run_streams merge2 mode acc (xs ++ ys) = Ok (out, S n).
+Proof. exact run_streams_stops. Qed.
+Print Assumptions C18_cli_first_error_wins.
+
+Theorem C18_cli_streams_compose :
+  forall merge2 mode xs ys acc,
+    run_streams merge2 mode acc (xs ++ ys) =
+    match run_streams merge2 mode acc xs with
+    | Ok (acc', 0) => run_streams merge2 mode acc' ys
+    | other => other
+    end.
+Proof. exact run_streams_app. Qed.
+Print Assumptions C18_cli_streams_compose.
+
+(* a source that does not load: 4 when it should have supplied the left-hand documents, 3 later -
+   and the documents merged so far are handed back untouched *)
+Theorem C18_cli_unloadable_source :
+  forall merge2 mode acc rest,
+    run_streams merge2 mode acc (None :: rest) = Ok (acc, match acc with [] => 4 | _ => 3 end).
+Proof. exact run_streams_unloadable. Qed.
+Print Assumptions C18_cli_unloadable_source.
+
+(* when every source loads, [run_streams] is the notion C16's merge theorems are stated with *)
+Theorem C18_cli_streams_all_load :
+  forall merge2 mode streams acc,
+    run_streams merge2 mode acc (map Some streams) = lib_merge_streams merge2 mode acc streams.
+Proof. exact run_streams_all_load. Qed.
+Print Assumptions C18_cli_streams_all_load.
+
+(* main() under -M merge_across / matrix_merge, ANY mix of loadable and unloadable sources, named
+   files in command-line order and then a waiting STDIN: state 0 -> the documents of [run_streams]
+   go to write_output_document; a non-zero state IS the exit status and nothing is delivered; an
+   escaping exception of the drivers escapes main() *)
+Theorem C18_cli_main_is_streams :
+  forall merge2 flow jview estr a tty srcs stdin_src nerr vl n',
+    ma_mode a <> CondenseAll ->
+    merge_validate a (List.length srcs) (map s_name srcs) tty = (nerr, vl, n') -> nerr = 0 -> ma_config_err a = None ->
+    Forall (src_clean estr) srcs ->
+    (stdin_waits_m a tty srcs = true -> src_clean estr stdin_src) ->
+    match run_streams merge2 (ma_mode a) [] (cli_streams estr a tty srcs stdin_src) with
+    | Ok (out, 0) =>
+        exists nh, cli_merge_main merge2 flow jview estr a tty srcs stdin_src =
+          let w := merge_write flow jview a n' (nonempty (ma_overwrite a) || nonempty (ma_output a)) out in
+          mkrun (r_status w) (vl ++ hints nh ++ r_out w) (r_fx w)
+    | Ok (_, S n) => r_status (cli_merge_main merge2 flow jview estr a tty srcs stdin_src) = Exit (S n) /\
+                     delivered (cli_merge_main merge2 flow jview estr a tty srcs stdin_src) = []
+    | Raise e => exists u, r_status (cli_merge_main merge2 flow jview estr a tty srcs stdin_src) = Uncaught u /\
+                           fam_matches u e
+    | OutOfFuel => False
+    end.
+Proof. exact cli_streams_run. Qed.
+Print Assumptions C18_cli_main_is_streams.
+
+(* non-vacuity: three files under -M merge_across; b.yaml's second pair raises MergeException, c.yaml
+   is not a file: 31 (the first error) - and with the two swapped: 3 *)
+Definition c18_m2 (l r : nat) : option ufam * nat := if Nat.eqb r 4 then (Some UMerge, l) else (None, 10 * l + r).
+Definition c18_args := mkmerge true (mknoise false false false) false false "" false "" false false FAuto MergeAcross "" None.
+Definition c18_src (name : string) (docs : list nat) := mksrc name true (mkraw docs None).
+Definition c18_missing (name : string) := mksrc name false (mkraw [] None).
+
+Example C18_cli_ex_first_error_wins :
+  let srcs := [c18_src "a.yaml" [1; 2]; c18_src "b.yaml" [3; 4; 5]; c18_missing "c.yaml"] in
+  cli_streams 9 c18_args true srcs (c18_src "-" []) = [Some [1; 2]; Some [3; 4; 5]; None] /\
+  run_streams c18_m2 MergeAcross [] [Some [1; 2]; Some [3; 4; 5]; None] = Ok ([13; 2], 31) /\
+  r_status (cli_merge_main c18_m2 (fun _ => false) (fun d => d) 9 c18_args true srcs (c18_src "-" [])) = Exit 31.
+Proof. repeat split; vm_compute; reflexivity. Qed.
+
+Example C18_cli_ex_unloadable_first :
+  let srcs := [c18_src "a.yaml" [1; 2]; c18_missing "c.yaml"; c18_src "b.yaml" [3; 4; 5]] in
+  run_streams c18_m2 MergeAcross [] (cli_streams 9 c18_args true srcs (c18_src "-" [])) = Ok ([1; 2], 3) /\
+  r_status (cli_merge_main c18_m2 (fun _ => false) (fun d => d) 9 c18_args true srcs (c18_src "-" [])) = Exit 3 /\
+  r_status (cli_merge_main c18_m2 (fun _ => false) (fun d => d) 9 c18_args true
+              [c18_missing "c.yaml"; c18_src "a.yaml" [1; 2]] (c18_src "-" [])) = Exit 4.
+Proof. repeat split; vm_compute; reflexivity. Qed.
+
+(* a waiting STDIN (no `-` named, --nostdin absent, not a terminal) is the LAST stream; the
+   hypotheses of C18_cli_main_is_streams hold of this run *)
+Definition c18_args_stdin := mkmerge false (mknoise false false false) false false "" false "" false false FAuto MergeAcross "" None.
+Example C18_cli_ex_stdin_last :
+  let srcs := [c18_src "a.yaml" [1; 2]] in
+  cli_streams 9 c18_args_stdin false srcs (c18_src "-" [7; 8; 6]) = [Some [1; 2]; Some [7; 8; 6]] /\
+  run_streams c18_m2 MergeAcross [] [Some [1; 2]; Some [7; 8; 6]] = Ok ([17; 28; 6], 0) /\
+  cli_merge_main c18_m2 (fun _ => false) (fun d => d) 9 c18_args_stdin false srcs (c18_src "-" [7; 8; 6])
+    = mkrun (Exit 0) [ODump false [17; 28; 6]] [] /\
+  fst (fst (merge_validate c18_args_stdin 1 ["a.yaml"] false)) = 0 /\
+  Forall (src_clean 9) srcs.
+Proof.
+  cbv zeta. repeat split; try (vm_compute; reflexivity).
+  repeat constructor. intros c H. vm_compute in H. discriminate H.
+Qed.
